@@ -192,7 +192,9 @@ fn exec_du(out: &mut CaseOut) {
         exec_val_v(Value::Dict(d), out);
         exec_val_v(Value::List(vec![n]), out);
     }
-    // dicts that LOOK like Hayson objects (a `_kind` tag naming a kind): a dict all the same
+    // the model is not asked about these: the exchange format names units by symbol
+    out.reqs.clear();
+    // dicts that LOOK like Hayson objects (a `_kind` tag naming a kind): a dict all the same (model asked)
     for kind in ["number", "marker", "str", "ref", "grid", "list", "dict", "dateTime", "Number", "nope"] {
         let mut d = Dict::new();
         d.insert("_kind".into(), Value::make_str(kind));
@@ -200,8 +202,6 @@ fn exec_du(out: &mut CaseOut) {
         exec_val_v(Value::Dict(d.clone()), out);
         exec_val_v(Value::List(vec![Value::Dict(d)]), out);
     }
-    // the model is not asked: the exchange format names units by symbol
-    out.reqs.clear();
 }
 
 fn exec_val_v(v: Value, out: &mut CaseOut) {
@@ -229,6 +229,9 @@ fn exec_val_v(v: Value, out: &mut CaseOut) {
     }
     if HaystackKind::try_from(name) != Ok(kind) {
         out.fail("kind_name_rt", format!("{kind:?} is named {name:?} but try_from({name:?}) = {:?}", HaystackKind::try_from(name)));
+    }
+    if format!("{kind:?}") != VARIANT_NAMES[me] {
+        out.fail("kind_not_variant", format!("a {} value is reported as kind {kind:?} (code {code})", VARIANT_NAMES[me]));
     }
     if display != name {
         out.fail("kind_display", format!("{kind:?} displays as {display:?} but is named {name:?}"));
